@@ -14,6 +14,7 @@ import VmMem.Model.Guest
 import VmMem.Model.Construct
 import VmMem.Model.Lifetime
 import VmMem.Model.Atomic
+import VmMem.Model.XenBuild
 import Driver.Proto
 namespace Driver
 open VmMem
@@ -34,6 +35,8 @@ structure St where
   atom : Atomic.St := Atomic.init 0
   rds : Array (Option Reader) := #[]
   wrs : Array (Option Writer) := #[]
+  xk : XenBuild.Kernel := {}
+  xregs : Array (Option XenBuild.Region) := #[]
 
 def tset {α} (a : Array (Option α)) (i : Nat) (v : α) : Array (Option α) :=
   let a := if i < a.size then a else a ++ Array.replicate (i + 1 - a.size) none
@@ -574,6 +577,35 @@ def stepAtom (st : St) (op : String) (kv : KV) : St × String :=
   | _, some a => let (s', r) := Atomic.step st.atom a; ({ st with atom := s' }, fmtAtom s' r)
   | _, none => (st, "bad-op")
 
+/-! `xbuild` world: `MmapRegion::from_range` of the Xen build against the kernel-state model -/
+def sortPairs (l : List (Nat × Nat)) : List (Nat × Nat) :=
+  (l.toArray.qsort (fun a b => a.1 < b.1 || (a.1 == b.1 && a.2 < b.2))).toList
+
+def fmtXK (k : XenBuild.Kernel) : String :=
+  s!"maps={k.maps.length} grants={",".intercalate ((sortPairs k.grants).map fun (i, c) => s!"{i}:{c}")}"
+
+def stepXBuild (st : St) (op : String) (kv : KV) : St × String :=
+  match op with
+  | "x.reset" => ({ st with xk := {}, xregs := #[] }, "ok")
+  | "x.new" =>
+    let file : Option Construct.FileReq := match optNat kv "flen" with
+      | some l => some { fileLen := l, start := kv.nat "fstart" } | none => none
+    let r : XenBuild.Req := { size := kv.nat "size", file := file, prot := optNat kv "prot", flags := optNat kv "flags",
+                              xenFlags := BitVec.ofNat 32 (kv.nat "w"), xenData := kv.nat "data", guestBase := kv.nat "base" }
+    let sc : XenBuild.Script := (kv.natList "sc").map (· != 0)
+    match XenBuild.fromRange r (kv.nat "page") st.xk sc with
+    | (.ok reg, k', _) =>
+      ({ st with xk := k', xregs := tset st.xregs (kv.nat "id") reg },
+       s!"ok size={reg.size} prot={reg.prot} flags={reg.flags} fstart={match reg.fileStart with | some x => toString x | none => "none"} xf={reg.xenFlags} xd={reg.xenData} {fmtXK k'}")
+    | (.error e, k', _) => ({ st with xk := k' }, s!"{fmtBErr e} {fmtXK k'}")
+  | "x.drop" =>
+    match tget st.xregs (kv.nat "id") with
+    | some reg =>
+      let k' := XenBuild.dropMap st.xk reg.map 4096
+      ({ st with xk := k', xregs := st.xregs.set! (kv.nat "id") none }, s!"ok {fmtXK k'}")
+    | none => (st, "bad-op")
+  | _ => (st, "bad-op")
+
 def step (st : St) (line : String) : St × String :=
   let (op, kv) := parseLine line
   if op = "" then (st, "")
@@ -589,6 +621,7 @@ def step (st : St) (line : String) : St × String :=
   else if op.startsWith "b." then stepBitmap st op kv
   else if op.startsWith "p." then stepProgram st op kv
   else if op.startsWith "k." then (st, stepConstruct op kv)
+  else if op.startsWith "x." then stepXBuild st op kv
   else if op.startsWith "l." then stepLife st op kv
   else if op.startsWith "t." then stepAtom st op kv
   else if op.startsWith "s." then stepSlice st op kv
